@@ -233,6 +233,6 @@ theorem inv7_stepCasC {s s' : State} {t : Tid} {o : Ord} {loc : Loc} {exp new ob
         exact ⟨by rw [hw, ho], hns, hcl⟩
       · intro c' hc'; simp only [setPc_pc, setFn_same, PC.mwPost, Option.some.injEq] at hc'
         rw [← hc']; exact hf7 c (by simp [PC.mwPost])
-    · split <;> inv7_local t h heq
+    · inv7_local t h heq
 
 end NsyncVerif.MuC
